@@ -16,7 +16,8 @@ from .c01 import SUBGRID, opts_of
 PID = 'C03'
 TIMEOUT = 1800.0
 RULE = ('sift/mask: every non-final F_A signal (length 6..L) and every F_B signal x option sets, all caps from 1 to '
-        'ncols+2 in each case; variants: every (variant, signal, nensembles, noise, cap) combination of the grid; '
+        'ncols+2 in each case; masked sift also on records sifted right after a same-length record sharing head / tail / both ends, and on '
+        'signals riding on a 1e7 offset; variants: every (variant, signal, nensembles, noise, cap) combination of the grid; '
         'non-trivial = the uncapped decomposition has >= 2 columns (sift/mask) or the cap is binding (variants)')
 ASSUMPTIONS = ['capped and uncapped runs are the same deterministic computation, so prefixes are compared exactly',
                'peeling is compared to 1e-12 relative (same function, same input, but a separate call)',
@@ -69,6 +70,16 @@ def cases(tier, seed):
             yield ('mask', 'fb', name, mi, seed)
     # larger scope: a noise record long enough for the uncapped sift to find 9 or more IMFs
     yield ('sift', 'gen', ('noise4096',), 0, seed)
+    # larger scope: a record sifted right after a different record of the same length that shares its first samples,
+    # its last samples, or both (anything remembered from the earlier record must not leak into this one)
+    for n in (1536,) if tier == 'quick' else (1536, 3000):
+        for share in ('head', 'tail', 'ends'):
+            for mi in range(len(TWINCFG)):
+                yield ('mask-twin', 'gen', (share, n), mi, seed)
+    # signals riding on an offset many orders of magnitude above their own variation
+    for name in signals.fb_names((32,))[:6]:
+        for mi in (0, 1, 3, 5):
+            yield ('mask', 'fb-off', name, mi, seed)
     for name in VAR_SIGNALS[:b['var_signals']]:
         for cap in CAPS:
             for E in b['nens']:
@@ -90,9 +101,26 @@ def decode_case(c):
     return tuple(c)
 
 
+TWINCFG = [MASKCFG[0], MASKCFG[7], {'mask_freqs': 'if', 'mask_amp_mode': 'ratio_sig', 'nphases': 2}]
+
+
+def twin_pair(share, n):
+    """(record under test, the record sifted just before it): equal length, equal outside the named region."""
+    t = np.arange(n)
+    x = np.cos(2 * np.pi * 0.05 * t) + 0.5 * np.cos(2 * np.pi * 0.011 * t + 0.4) + 0.3 * t / n
+    reg = {'head': slice(int(0.75 * n), n), 'tail': slice(0, int(0.25 * n)), 'ends': slice(int(0.4 * n), int(0.6 * n))}[share]
+    y = x.copy()
+    y[reg] += 0.9 * np.cos(2 * np.pi * 0.23 * t[reg])
+    return x, y
+
+
 def signal_of(case):
     if case[1] == 'fa':
         return signals.fa_signal(case[2], 4, case[4])
+    if case[1] == 'fb-off':
+        return signals.fb_signal(case[2], case[4]) + (1e7 if case[4] % 2 == 0 else -1e7)
+    if case[1] == 'gen' and case[0] == 'mask-twin':
+        return twin_pair(*case[2])[0]
     if case[1] == 'gen':
         tab = signals.noise_table(case[4])
         return np.concatenate([tab[i % 8] * (1 + 0.1 * i) for i in range(16)])
@@ -114,7 +142,7 @@ def check_case(case):
         return check_sift(case)
     # worker placement is irrelevant here (C07/C08 own it): run the pools in-process
     with forkpool.installed(forkpool.SerialMP()):
-        if kind == 'mask':
+        if kind in ('mask', 'mask-twin'):
             return check_mask(case)
         return check_variant(case)
 
@@ -185,14 +213,20 @@ def check_mask(case):
     from emd.support import EMDSiftCovergeError
     x = signal_of(case)
     N = len(x)
-    cfg = dict(MASKCFG[case[3]])
+    cfg = dict(MASKCFG[case[3]] if case[0] == 'mask' else TWINCFG[case[3]])
     if isinstance(cfg['mask_freqs'], list):
         cfg['mask_freqs'] = np.array(cfg['mask_freqs'])
     if isinstance(cfg.get('mask_amp'), list) and case[4] % 2 == 0:
         cfg['mask_amp'] = np.array(cfg['mask_amp'])
-    tag = '%s mask cfg %r' % (describe(case, x), MASKCFG[case[3]])
+    tag = '%s mask cfg %r' % (describe(case, x), cfg)
     viols = []
     trans = 0
+    if case[0] == 'mask-twin':
+        tag = 'record of %d samples sifted after another one sharing its %s, ' % (N, case[2][0]) + tag
+        try:
+            mask_sift(twin_pair(*case[2])[1], **dict(cfg))
+        except Exception:
+            pass
 
     def call(**kw):
         c = dict(cfg)
@@ -247,7 +281,8 @@ def check_mask(case):
             viols.append(('mask:peeling', '%s: column %d is not the masked extraction of (input - first %d columns) (max diff %.3g)' % (
                 tag, k, k, np.max(np.abs(np.asarray(want)[:, 0] - full[:, k])))))
             break
-    return Outcome(cls='mask:%s' % ('multi' if n >= 2 else 'single'), transitions=trans, viols=viols, nontrivial=n >= 2)
+    fam = 'twin' if case[0] == 'mask-twin' else ('mask-offset' if case[1] == 'fb-off' else 'mask')
+    return Outcome(cls='%s:%s' % (fam, 'multi' if n >= 2 else 'single'), transitions=trans, viols=viols, nontrivial=n >= 2)
 
 
 def check_variant(case):
@@ -325,7 +360,7 @@ def snippet(case, kind):
 
 
 def nonvacuity(rep, ctx):
-    need = {'sift:multi', 'mask:multi', 'ens', 'ceemd', 'second', 'second-noargs', 'msecond'}
+    need = {'sift:multi', 'mask:multi', 'twin:multi', 'mask-offset:multi', 'ens', 'ceemd', 'second', 'second-noargs', 'msecond'}
     if not need <= set(rep.classes):
         return ['vacuous: outcome classes %r' % dict(rep.classes)]
     return []
